@@ -365,13 +365,10 @@ Error BaseAssembler::embed_label_delta(const Label& label, const Label& base, si
   // If both labels are bound within the same section it means the delta can be calculated now.
   if (label_entry.is_bound() && base_entry.is_bound() && label_entry.section_id() == base_entry.section_id()) {
     uint64_t delta = label_entry.offset() - base_entry.offset();
-    if (data_size < 8u) {
-      // The delta must be representable as either a signed or an unsigned value of `data_size` bytes.
-      uint32_t bit_count = uint32_t(data_size) * 8u;
-      int64_t signed_delta = int64_t(delta);
-      if (signed_delta < -(int64_t(1) << (bit_count - 1u)) || signed_delta > (int64_t(1) << bit_count) - 1) {
-        return report_error(make_error(Error::kInvalidDisplacement));
-      }
+    // The delta must be representable as a signed value of `data_size` bytes - the same rule that applies to
+    // the `OffsetType::kSignedOffset` relocation created below when the delta cannot be calculated now.
+    if (!EmitterUtils::is_encodable_offset_64(int64_t(delta), uint32_t(data_size) * 8u)) {
+      return report_error(make_error(Error::kInvalidDisplacement));
     }
     writer.emit_value_le(delta, data_size);
   }
